@@ -12,7 +12,7 @@ def main(argv):
     parts_kernel.model_part(rep, parts_kernel.THOROUGH_MODELS if thorough else parts_kernel.QUICK_MODELS)
     parts_kernel.trace_part(rep, PID, 600 if thorough else 300, [s * 100 + i for i in range(10 if thorough else 2)])
     # schedule replay: one preemption at every hook point (lock boundary / check-then-act window) of a victim producer, operator-level scenarios
-    parts_kernel.trace_part(rep, PID, 120 if thorough else 24, [s * 100 + 70 + i for i in range(4 if thorough else 1)], driver='drive-park', label='drive-park')
+    parts_kernel.trace_part(rep, PID, 120 if thorough else 45, [s * 100 + 70 + i for i in range(4 if thorough else 1)], driver='drive-park', label='drive-park')
     # operator level: K sequential producers into multi-source operators / subjects, alone and followed by pass-through operators
     parts_kernel.trace_part(rep, PID, 500 if thorough else 300, [s * 100 + 50 + i for i in range(10 if thorough else 2)], extra=['-ops'], label='drive-ops')
     rep.cov['rule'] = ('kernel traces: seeded scenarios (1-4 producers with legal and illegal scripts, 0-2 unsubscribers, adders, waiters, '
